@@ -233,7 +233,8 @@ def render(e):
     if k == "PTupleStruct":
         return "%s(%s)" % (e["path"], render(e["elems"]))
     if k == "PStruct":
-        return "%s { %s%s }" % (e["path"], ", ".join(f["name"] if f["shorthand"] else "%s: %s" % (f["name"], render(f["pat"])) for f in e["fields"]), ", .." if e["rest"] else "")
+        inner = ", ".join(f["name"] if f["shorthand"] else "%s: %s" % (f["name"], render(f["pat"])) for f in e["fields"])
+        return "%s { %s%s }" % (e["path"], inner, (", .." if inner else "..") if e["rest"] else "")
     if k == "PTuple":
         return "(%s)" % render(e["elems"])
     if k == "PSlice":
@@ -387,8 +388,8 @@ def _simple_arg(a):
         return True
     if a["k"] == "Field":
         return _simple_arg(a["base"])
-    if a["k"] == "MethodCall" and not a["args"] and a["method"] in ("iter", "iter_mut", "as_ref", "as_mut", "as_slice", "as_mut_slice", "as_str", "len"):
-        return _simple_arg(a["recv"])
+    if a["k"] == "MethodCall" and not a["args"]:
+        return _simple_arg(a["recv"])  # getters and views of a place: `self.primary()`, `xs.iter()`
     return False
 
 
@@ -568,7 +569,7 @@ def simplify_body(body):
             bound = {x["name"] for p in e.get("inputs", []) for x in walk(p) if x["k"] == "PIdent"}
             env = {a: b for a, b in env.items() if a not in bound}
         if k == "Path" and e["path"] in env:
-            return copy.deepcopy(env[e["path"]])
+            return copy.deepcopy(strip(env[e["path"]]))
         if k == "Match":
             arms = e["arms"]
             pats = [render(a["pat"]).strip() for a in arms]
@@ -610,6 +611,9 @@ def simplify_body(body):
             s = stmts[i]
             rest = stmts[i + 1:]
             if s["k"] == "Local":
+                if s["pat"]["k"] == "PType":  # `let x: T = ..` is `let x = ..` here
+                    s = dict(s)
+                    s["pat"] = s["pat"]["pat"]
                 init = expr(s["init"], env) if s.get("init") is not None else None
                 bound = {x["name"] for x in walk(s["pat"]) if x["k"] == "PIdent"}
                 if s["pat"]["k"] == "PIdent" and init is not None and not s["pat"].get("mut") and s.get("else") is None and _pure(init):
@@ -619,6 +623,18 @@ def simplify_body(body):
                         mutated |= _mutated_names(r)
                     if not (free & mutated) and s["pat"]["name"] not in mutated:
                         env[s["pat"]["name"]] = init
+                        i += 1
+                        continue
+                # irrefutable destructuring of a place: `let Report { category, .. } = self;` binds projections
+                if s["pat"]["k"] in ("PStruct", "PTuple", "PRef") and init is not None and s.get("else") is None and strip(init)["k"] in ("Path", "Field") and all(not x.get("mut") for x in walk(s["pat"]) if x["k"] == "PIdent") and not (s["pat"]["k"] == "PTuple" and strip(init)["k"] == "Tuple"):
+                    from terms import bind_pattern
+
+                    mutated = set()
+                    for r in rest:
+                        mutated |= _mutated_names(r)
+                    free = {x["path"].split("::")[0] for x in walk(init) if x["k"] == "Path"}
+                    if not (free & mutated) and not (bound & mutated):
+                        bind_pattern(s["pat"], strip(init), env)
                         i += 1
                         continue
                 # `let (a, b) = (x, y);` element-wise
@@ -679,4 +695,46 @@ def struct_literal_fields(fn, struct_name):
     for n in walk(body):
         if n["k"] == "Struct" and last(n["path"]) in (struct_name, "Self"):
             out.append({f["name"]: render(strip(f["e"])).replace(" ", "") for f in n["fields"]})
+    return out
+
+
+def result_expr(fn):
+    """the value a function returns, read on its expression form (immutable pure lets inlined, a trailing `return x;`
+    taken as the tail): `let total = self.written; total` reads as `self.written`"""
+    body = fn["body"] if "body" in fn and fn.get("k") != "Block" else fn
+    return block_tail(simplify_body(body))
+
+
+def truth_paths(fn):
+    """For a boolean function: the ways it can return something other than `false`, as a list of
+    (fact texts on the path, value text).  `matches!(x, P if g)` as the value is read as the facts `let P = x`, `g` and
+    the value `true`, so `matches!(..)`, `match .. { P => true, _ => false }` and `if let P = .. { true } else { false }`
+    give the same single truth path."""
+    from pathcond import IFLET, enumerate_paths, fact_str, split_cond
+
+    body = simplify_body(fn["body"])
+    out = []
+    for conds, atoms, ex in enumerate_paths(body):
+        if ex in ("panic",):
+            continue
+        val = None
+        for a in reversed(atoms):
+            if a.get("k") == "ItemStmt":
+                continue
+            val = a["e"] if a.get("k") == "Return" else a
+            break
+        if val is None:
+            continue
+        v = strip(val)
+        facts_ = list(conds)
+        if v["k"] == "Macro" and v["name"].endswith("matches") and v.get("parsed") and v.get("pat") is not None:
+            facts_.append(IFLET(v["pat"], v["args"][0], True))
+            if v.get("guard"):
+                facts_ += split_cond(v["guard"], True)
+            vt = "true"
+        else:
+            vt = render(v).replace(" ", "")
+        if vt == "false":
+            continue
+        out.append((sorted(fact_str(f).replace(" ", "") for f in facts_ if f[0] not in ("loop",)), vt))
     return out
